@@ -5,7 +5,7 @@ wt=/tmp/seedverify
 rm -rf $wt; git -C /repo worktree add -q --detach $wt HEAD || exit 3
 for pid in C01 C02 C03 C04 C05 C06 C07 C08 C09 C10 C11 C12 C13 C14 C15 C16 C17 C18; do
   for k in 1 2; do
-    src=/tmp/seed/$pid.out
+    src=${SEEDSRC:-/tmp/seed}/$pid.out
     [ -f $src/mut$k.diff ] || { echo "$pid mut$k: missing"; continue; }
     git -C $wt checkout -q -- . ; git -C $wt clean -fdq
     /venv/bin/python $src/mut${k}_demo.py $wt/src >/dev/null 2>&1; clean_rc=$?
@@ -16,7 +16,7 @@ for pid in C01 C02 C03 C04 C05 C06 C07 C08 C09 C10 C11 C12 C13 C14 C15 C16 C17 C
     case "$tests" in *"150 passed"*) [ $clean_rc -eq 0 ] && [ $mut_rc -ne 0 ] && ok=yes;; esac
     echo "$pid mut$k: tests=[$tests] demo_clean_rc=$clean_rc demo_mutant_rc=$mut_rc confirmed=$ok"
     if [ $ok = yes ]; then
-      d=/verif/seeded/${pid}_mut$k; mkdir -p $d
+      d=/verif/seeded/${pid}_${SEEDTAG:-}mut$k; mkdir -p $d
       cp $src/mut$k.diff $d/patch.diff; cp $src/mut${k}_demo.py $d/demo.py; cp $src/mut$k.md $d/notes.md
       printf '%s\n' "$tests" > $d/.tests
     fi
